@@ -311,6 +311,9 @@ func (e *Exec) runOnePath(fn *ssa.Function, prefix []int) {
 		e.callFunction(fn, nil, nil)
 	}()
 	e.PathsEnded[reason]++
+	if reason == "engine-error" && len(e.path.events) > 0 {
+		e.path.events = append(e.path.events, "engine-error")
+	}
 	if len(e.path.events) > 0 {
 		e.EventTraces[strings.Join(e.path.events, " ; ")] = true
 	}
